@@ -1066,6 +1066,8 @@ class LegCharge:
 
     def is_bunched(self):
         """Checks whether :meth:`bunch` would change something."""
+        if self.block_number == 0:
+            return True  # nothing to bunch on a leg of length 0
         return len(_find_row_differences(self.charges)) == self.block_number + 1
 
     def test_contractible(self, other):
@@ -1292,7 +1294,7 @@ class LegCharge:
         sort : sorts by charges, thus enforcing complete blocking in combination with bunch.
 
         """
-        if self.bunched:  # nothing to do
+        if self.bunched or self.block_number == 0:  # nothing to do
             return np.arange(self.block_number + 1, dtype=np.intp), self
         cp = self.copy()
         idx = _find_row_differences(self.charges)
@@ -1934,7 +1936,7 @@ def _find_row_differences(qflat):
         ``[0]+[i for i in range(1, len(qflat)) if np.any(qflat[i-1] != qflat[i])] + [len(qflat)]``
 
     """
-    if qflat.shape[1] == 0:
+    if qflat.shape[1] == 0 or qflat.shape[0] == 0:
         return np.array([0, qflat.shape[0]], dtype=np.intp)
     diff = np.ones(qflat.shape[0] + 1, dtype=np.bool_)
     diff[1:-1] = np.any(qflat[1:] != qflat[:-1], axis=1)
